@@ -76,7 +76,7 @@ func genSizes(r *core.Rand, n, limit int, mi *methodInfo, codec string) []MsgSpe
 		if max := payloadSizeFor(mi, codec, limit); size > max {
 			size = max // over-limit inputs are C08's subject
 		}
-		out = append(out, MsgSpec{Size: size, Seed: r.U64() >> 8})
+		out = append(out, MsgSpec{Size: size, Seed: r.U64() >> 8, Unknown: size+32 < limit && r.Chance(1, 6)})
 	}
 	return out
 }
@@ -275,6 +275,7 @@ func genC06(r *core.Rand, run int) *MuxScenario {
 	sp.PingPong = mi.Shape() == "bidi" && r.Chance(1, 5) && len(sp.Handler.Steps) > 0 && sp.Handler.Steps[len(sp.Handler.Steps)-1].Op != "bodywriter" && hasOp(sp.Handler, "echo")
 	sp.ZeroReads = r.Chance(1, 4)
 	sp.EOFData = r.Chance(1, 3)
+	sp.Slash = tr.proto == "http" && r.Chance(1, 8)
 	if r.Chance(1, 6) {
 		sp.Window = r.Pick(1, 7, 64, 300)
 	}
@@ -312,7 +313,11 @@ func fitLimits(sc *MuxScenario) {
 		mi := methods[sp.Method]
 		if sp.Proto != "ws" && sp.Codec != "body" {
 			for j, rq := range sp.Msgs {
-				n := len(marshalMsg(sp.Codec, mi.mkReq(payloadFor(sp.payloadID(), j, 'C', rq), ""))) + len(sp.Sep)
+				m := mi.mkReq(payloadFor(sp.payloadID(), j, 'C', rq), "")
+				if rq.Unknown && sp.Codec == "proto" {
+					withUnknown(m, rq.Seed)
+				}
+				n := len(marshalMsg(sp.Codec, m)) + len(sp.Sep)
 				if sp.Compress && sp.Proto != "http" {
 					n += 64
 				}
@@ -474,7 +479,7 @@ func oracleStream(prop string, mr *muxRun, rs *reqState, cnt *[core.NumCounters]
 			case rs.cutMid || fault == "readerr":
 				// (through the proxy the cancellation of the backend call may
 				// overtake messages still in flight: a prefix, then the error)
-				if len(l.Recv) != nComplete && sp.Backend == "" {
+				if len(l.Recv) != nComplete && l != &rs.blog {
 					return fail("recv-missing-message", "handler received %d messages, %d were completely delivered before the stream broke at byte %d (err=%v)", len(l.Recv), nComplete, rs.end, l.RecvErr)
 				}
 				if l.RecvErr == nil || l.RecvErr == io.EOF {
@@ -494,7 +499,8 @@ func oracleStream(prop string, mr *muxRun, rs *reqState, cnt *[core.NumCounters]
 	// ---- (b) what the client received ------------------------------------------
 	cv := rs.decodeResponse(resp)
 	writeFault := fault == "abort" || fault == "wbreak"
-	if sp.Backend != "" && (fault == "readerr" || fault == "cut" && rs.cutMid) {
+	viaBackend := l == &rs.blog // the script ran on a backend behind the proxy (not on a local handler of the same method)
+	if viaBackend && (fault == "readerr" || fault == "cut" && rs.cutMid) {
 		// the request side of a proxied stream broke: the proxy ends the
 		// backend call, so what the backend still manages to send and which
 		// status the client sees are not prescribed
@@ -542,7 +548,7 @@ func oracleStream(prop string, mr *muxRun, rs *reqState, cnt *[core.NumCounters]
 			}
 		}
 		wantMsgs := l.Sent
-		if sp.Backend != "" && !rs.method.ServerS && l.Returned && l.RetCode != codes.OK {
+		if viaBackend && !rs.method.ServerS && l.Returned && l.RetCode != codes.OK {
 			// gRPC semantics of a direct call: a unary-response RPC that ends
 			// with a non-OK status yields the status only
 			wantMsgs = 0
@@ -557,6 +563,20 @@ func oracleStream(prop string, mr *muxRun, rs *reqState, cnt *[core.NumCounters]
 			okStatus := l.Returned && l.RetCode == codes.OK
 			if len(cv.Trailing) > 0 && (sp.Proto != "http" || okStatus) {
 				return fail("response-trailing-bytes", "%d undecodable bytes after the last message: %s", len(cv.Trailing), hexPreview(cv.Trailing, 48))
+			}
+			// HTTP has no trailer for the status: once the response has
+			// started, the rendering of the error after the last message is
+			// the only way the client learns that the call failed, so it has
+			// to be there and to say how (code and message; its exact shape
+			// and the HTTP status code are C05's subject)
+			if sp.Proto == "http" && rs.method.ServerS && !rs.method.httpBodyResp && l.Returned && l.RetCode != codes.OK {
+				var e struct {
+					Code    int    `json:"code"`
+					Message string `json:"message"`
+				}
+				if err := json.Unmarshal(cv.Trailing, &e); err != nil || e.Code != int(l.RetCode) || e.Message != l.RetMsg {
+					return fail("http-stream-error-lost", "the handler failed with %d %q after %d streamed messages; what follows the messages is %q (want a rendering of that status)", int(l.RetCode), l.RetMsg, l.Sent, string(cv.Trailing[:min(len(cv.Trailing), 160)]))
+				}
 			}
 		} else if len(cv.Msgs) > l.Sent+1 {
 			return fail("response-count", "client decoded %d messages, handler sent %d", len(cv.Msgs), l.Sent)
